@@ -200,7 +200,11 @@ func (s *server) CreateTable(ctx context.Context, req *btapb.CreateTableRequest)
 	// req.Table becomes the live definition below; the response (marshalled after this method
 	// returns) must not share its family map, so copy it before other requests can see the table.
 	cfs := proto.Clone(req.Table).(*btapb.Table).GetColumnFamilies()
-	rows := s.storage.Create(req.Table)
+	rows, err := createRows(s.storage, req.Table)
+	if err != nil {
+		s.mu.Unlock()
+		return nil, err
+	}
 	s.tables[tbl] = newTable(req.Table, rows)
 
 	s.mu.Unlock()
@@ -214,6 +218,18 @@ func (s *server) CreateTable(ctx context.Context, req *btapb.CreateTableRequest)
 		ct.Granularity = btapb.Table_MILLIS
 	}
 	return ct, nil
+}
+
+// createRows calls Storage.Create and turns a storage failure into an error status. The Storage interface has
+// no error results and the disk storage panics when it cannot create the table's directory or database (e.g. a
+// table name with an over-long or otherwise unusable path component); that must not take the whole server down.
+func createRows(st Storage, tbl *btapb.Table) (rows Rows, err error) {
+	defer func() {
+		if r := recover(); r != nil {
+			err = status.Errorf(codes.InvalidArgument, "cannot create storage for table %q: %v", tbl.Name, r)
+		}
+	}()
+	return st.Create(tbl), nil
 }
 
 func (s *server) ListTables(ctx context.Context, req *btapb.ListTablesRequest) (*btapb.ListTablesResponse, error) {
